@@ -9,6 +9,7 @@ and the reported values at the end.
 import copy
 import json
 import math
+import random
 import pathlib
 from fractions import Fraction
 
@@ -31,8 +32,12 @@ RULE = ("seeded production histories of one scalar feature (float64 with NaN as 
         "dclab-join of 2-4 files in shuffled order, inputs optionally re-made with raw h5py (small "
         "chunks, summaries partly absent). Hierarchy child AND grandchild of a root whose feature "
         "is an HDF5 dataset with / without stored summaries, a dict ndarray, an ancillary feature "
-        "(deform from circ), a temporary feature on a dict or file root, or basin-backed; each "
-        "level's filter selects all / one / some events. Stored attributes after every step are "
+        "(deform from circ; emodulus from area_um/deform/config), a temporary feature on a dict or "
+        "file root, or basin-backed; each "
+        "level's filter selects all / one / some events; 1-4 steps, each a filter change or a change "
+        "of the root's feature DATA without any filter change (temporary feature replaced, emodulus "
+        "recomputed after a change of the temperature; plain refresh otherwise), summaries queried "
+        "on child and grandchild after every step. Stored attributes after every step are "
         "compared with the Lean model, reported values with numpy nanmin/nanmax (exact) and the "
         "exact rational mean (|diff| <= 1e-12 * largest finite magnitude) of the feature's actual "
         "values (children: the root's values under the datasets' effective filters). RULE for "
@@ -302,7 +307,8 @@ def gen_join_case(rng):
             "strip_first": rng.random() < 0.3, "raw": raw, "cb": rng.choice([1, 2 ** 20])}
 
 
-CONTAINERS = ["hdf5", "hdf5-stripped", "dict", "ancillary", "temporary", "temporary-hdf5", "basin"]
+CONTAINERS = ["hdf5", "hdf5-stripped", "dict", "ancillary", "temporary", "temporary", "temporary-hdf5",
+              "emodulus", "emodulus", "basin"]
 
 
 def gen_fspec(rng):
@@ -317,13 +323,26 @@ def gen_fspec(rng):
 
 def gen_child_case(rng):
     cont = rng.choice(CONTAINERS)
-    feat = {"ancillary": "deform", "temporary": "verif_tmp",
-            "temporary-hdf5": "verif_tmp"}.get(cont) or rng.choice(FEATS_FLOAT)
+    feat = {"ancillary": "deform", "temporary": "verif_tmp", "temporary-hdf5": "verif_tmp",
+            "emodulus": "emodulus"}.get(cont) or rng.choice(FEATS_FLOAT)
     n = rng.choice([1, 2, rng.randint(1, 14), rng.randint(3, 14)])
     vals = gen_vals(rng, n, "deform")
     return {"kind": "child", "feat": feat, "container": cont,
             "writes": composition(rng, vals),
-            "steps": [[gen_fspec(rng), gen_fspec(rng)] for _ in range(rng.randint(1, 3))]}
+            "steps": gen_steps(rng)}
+
+
+def gen_steps(rng):
+    """filter changes, and changes of the root's feature DATA without any filter change
+    (temporary feature replaced, emodulus recomputed after a config change; a plain refresh for
+    the other containers); summaries are queried after every step"""
+    steps = [["filt", gen_fspec(rng), gen_fspec(rng)]]
+    for _ in range(rng.choice([0, 1, 1, 2, 3])):
+        if rng.random() < 0.5:
+            steps.append(["data", rng.randrange(10 ** 6)])
+        else:
+            steps.append(["filt", gen_fspec(rng), gen_fspec(rng)])
+    return steps
 
 
 def gen_basin_case(rng):
@@ -404,6 +423,7 @@ def model_lines(case, res=None):
             return [("child", None)]
         lines.append(("child " + " ".join(res["root"]), None))
         for st in res["steps"]:
+            lines.append(("cdata " + " ".join(st["root"]), None))
             for key in ("e1", "comp"):
                 lines.append(("mask " + st[key], None))
                 lines.append(("rejuv", None))
@@ -714,6 +734,18 @@ def open_root(case, wd):
         ds = dclab.new_dataset(path)
         dclab.set_temporary_feature(rtdc_ds=ds, feature="verif_tmp", data=arr)
         return ds
+    if cont == "emodulus":
+        fin = np.isfinite(arr)
+        area = np.where(fin, 25.0 + np.abs(np.where(fin, arr, 0.0)) % 250.0, np.nan)
+        deform = 0.01 + (np.arange(n) * 0.013) % 0.17
+        ds = dclab.new_dataset({"area_um": area, "deform": deform, "time": time})
+        ds.config["setup"]["flow rate"] = 0.04
+        ds.config["setup"]["channel width"] = 20.0
+        ds.config["imaging"]["pixel size"] = 0.34
+        ds.config["calculation"]["emodulus lut"] = "LE-2D-FEM-19"
+        ds.config["calculation"]["emodulus medium"] = "CellCarrier"
+        ds.config["calculation"]["emodulus temperature"] = 23.0
+        return ds
     if cont == "basin":
         pa, pb = wd / "a.rtdc", wd / "b.rtdc"
         write_file(pa, feat, case["writes"])
@@ -725,6 +757,22 @@ def open_root(case, wd):
     raise ValueError(cont)
 
 
+def change_data(case, ds, k):
+    """change the root's feature data without touching any filter; False if this kind of
+    container has no such operation (the step is then a plain refresh)"""
+    dclab = common.import_dclab()
+    cont = case["container"]
+    if cont in ("temporary", "temporary-hdf5"):
+        vals = gen_vals(random.Random(k), len(ds), "deform")
+        dclab.set_temporary_feature(rtdc_ds=ds, feature="verif_tmp",
+                                    data=np.array([untok(t) for t in vals], dtype=np.float64))
+        return True
+    if cont == "emodulus":
+        ds.config["calculation"]["emodulus temperature"] = 15.0 + k % 20
+        return True
+    return False
+
+
 def run_child(case, wd):
     """child and grandchild of a root; the effective filters are read from the datasets"""
     dclab = common.import_dclab()
@@ -732,25 +780,33 @@ def run_child(case, wd):
     res = {"steps": []}
     ds = open_root(case, wd)
     try:
-        root = np.array(ds[feat][:], dtype=np.float64)
-        res["root"] = [tok(v) for v in root.tolist()]
         ch = dclab.new_dataset(ds)
         gc = dclab.new_dataset(ch)
-        for f1, f2 in case["steps"]:
-            ds.filter.manual[:] = np.array(eff_mask(f1, len(ds)))
-            ch.rejuvenate()
-            ch.filter.manual[:] = np.array(eff_mask(f2, len(ch)))
-            gc.rejuvenate()
+        for st in case["steps"]:
+            if st[0] == "data":
+                changed = change_data(case, ds, st[1])
+                ch.rejuvenate()
+                gc.rejuvenate()
+            else:
+                changed = False
+                f1, f2 = st[-2:]
+                ds.filter.manual[:] = np.array(eff_mask(f1, len(ds)))
+                ch.rejuvenate()
+                ch.filter.manual[:] = np.array(eff_mask(f2, len(ch)))
+                gc.rejuvenate()
+            root = np.array(ds[feat][:], dtype=np.float64)
             e1 = np.array(ds.filter.all, dtype=bool)
             e2 = np.array(ch.filter.all, dtype=bool)
             comp = np.zeros(len(root), dtype=bool)
             comp[np.where(e1)[0][e2]] = True
             fc, fg = ch[feat], gc[feat]
             res["steps"].append({
+                "root": [tok(v) for v in root.tolist()],
                 "e1": bits(e1), "comp": bits(comp),
                 "ch": [fc.min(), fc.max(), fc.mean()], "gc": [fg.min(), fg.max(), fg.mean()],
                 "ch_data": root[e1], "gc_data": root[comp],
-                "parent_type": type(ds[feat]).__name__})
+                "parent_type": type(ds[feat]).__name__, "data_changed": changed})
+        res["root"] = res["steps"][0]["root"] if res["steps"] else []
     finally:
         try:
             ds.close() if hasattr(ds, "close") else None
@@ -927,7 +983,9 @@ CORPUS = [
     {"kind": "file", "feat": "deform", "cb": 2 ** 20,
      "ops": [["raw", ["1", "nan", "3", "5"], 2, False], ["copy", "compress"]]},    # chunk-wise completion
     {"kind": "child", "feat": "deform", "container": "dict", "writes": [["1", "nan", "3"]],
-     "steps": [["all", "all"]]},                                  # nothing filtered out, ndarray parent
+     "steps": [["filt", "all", "all"]]},
+    {"kind": "child", "feat": "verif_tmp", "container": "temporary", "writes": [["1", "2", "3"]],
+     "steps": [["filt", "110", "all"], ["data", 5]]},             # data change, no filter change                                  # nothing filtered out, ndarray parent
     {"kind": "file", "feat": "fl1_max", "ops": [["write", ["5", "7"], False], ["write", ["0"], True],
                                                 ["export", "011"], ["copy", "condense"]]},
 ]
@@ -979,6 +1037,7 @@ def run(ctx):
                 ctx.stat("parent_feature_type=" + st["parent_type"])
                 ctx.stat("child_sees_all", int("0" not in st["e1"]))
                 ctx.stat("grandchild_sees_all", int(st["e1"] == st["comp"]))
+                ctx.stat("data_changed_without_filter_change", int(st["data_changed"]))
         if c["kind"] == "file":
             for op in c["ops"]:
                 ctx.stat("op=" + (op[0] if op[0] != "copy" else "copy:" + op[1]))
